@@ -84,7 +84,7 @@ uper_get_nsnnwn(asn_per_data_t *pd) {
 			return -1;
 		if(value == 0)
 			return 0;
-		if(value >= 3)
+		if(value > 3)	/* uper_put_nsnnwn() emits up to 3 octets */
 			return -1;
 		value = per_get_few_bits(pd, 8 * value);
 		return value;
@@ -113,7 +113,8 @@ uper_put_nsnnwn(asn_per_outp_t *po, int n) {
 		bytes = 3;
 	else
 		return -1;	/* This is not a "normally small" value */
-	if(per_put_few_bits(po, bytes, 8))
+	/* #10.6.2: a single-bit 1, then a semi-constrained whole number */
+	if(per_put_few_bits(po, 1, 1) || per_put_few_bits(po, bytes, 8))
 		return -1;
 
 	return per_put_few_bits(po, n, 8 * bytes);
